@@ -16,6 +16,7 @@ type peLayout struct {
 	secs              []peSec
 	slack, gap, gappos int
 	trail, cert       int
+	ndirs             int    // NumberOfRvaAndSizes (0 = 16)
 	zptr              string // "pos": sections without raw data still carry a non-zero PointerToRawData
 }
 
@@ -32,7 +33,7 @@ type peImage struct {
 }
 
 func layoutFrom(m M) peLayout {
-	l := peLayout{zptr: str(m, "zptr"), bits: num(m, "bits"), lfanew: num(m, "lfanew"), slack: num(m, "slack"), gap: num(m, "gap"), gappos: num(m, "gappos"), trail: num(m, "trail"), cert: num(m, "cert")}
+	l := peLayout{ndirs: num(m, "ndirs"), zptr: str(m, "zptr"), bits: num(m, "bits"), lfanew: num(m, "lfanew"), slack: num(m, "slack"), gap: num(m, "gap"), gappos: num(m, "gappos"), trail: num(m, "trail"), cert: num(m, "cert")}
 	for _, s := range list(m, "secs") {
 		sm := s.(M)
 		l.secs = append(l.secs, peSec{num(sm, "size"), num(sm, "fpos")})
@@ -47,11 +48,15 @@ func put32(b []byte, off int, v uint32) { binary.LittleEndian.PutUint32(b[off:],
 func buildPE(l peLayout, fillID string) *peImage {
 	n := len(l.secs)
 	opt := l.lfanew + 24
-	optsize := 224
+	nd := l.ndirs
+	if nd == 0 {
+		nd = 16
+	}
 	ddoff := 96
 	if l.bits == 64 {
-		optsize, ddoff = 240, 112
+		ddoff = 112
 	}
+	optsize := ddoff + 8*nd
 	sectab := opt + optsize
 	soh := sectab + 40*n + l.slack
 	// raw data in file order
@@ -114,7 +119,7 @@ func buildPE(l peLayout, fillID string) *peImage {
 	put32(b, opt+60, uint32(soh))
 	img.cksum = opt + 64
 	img.dd4 = opt + ddoff + 32
-	put32(b, opt+ddoff-4, 16) // NumberOfRvaAndSizes
+	put32(b, opt+ddoff-4, uint32(nd)) // NumberOfRvaAndSizes
 	put32(b, img.dd4, uint32(certva))
 	put32(b, img.dd4+4, uint32(l.cert))
 	img.regions = append(img.regions,
